@@ -48,17 +48,45 @@ def run(ctx, spec):
                           dict(case_id=cid, source=src.decode("latin1"), mode=mode, fs_before=fsb,
                                implementation=dict(res=ires, fs=fi.get("FS")), model_and_spec=dict(res=mres, fs=fm.get("FS"))),
                           key=S.case_key(src, (mode + fsb).encode()))
+    # histories of calls on the in-memory output stream: the real files.MemoryStream / files.Writer against Vore.MS.runOps
+    # (C06_memory_stream*: the WriteAt calls of searchReplace never panic and leave the splice)
+    import re as _re
+    ms_n = ms_agree = ms_panic = ms_cap_drift = 0
+    _nocap = lambda l: _re.sub(r" cap=\d+", "", l or "")
+    for cid, cline in cases.items():
+        parts = cline.split("\t")
+        if parts[0] != "mshist":
+            continue
+        ms_n += 1
+        il, ml = impl.get(cid, "MISSING"), model.get(cid)
+        if _nocap(il) == _nocap(ml):
+            # contents, position and panics are what the property observes; the capacity of the backing array is an
+            # internal of the growth rule (another factor would be a harmless rewrite): recorded, not a verdict
+            ms_agree += 1
+            ms_panic += il == "PANIC"
+            ms_cap_drift += il != ml
+            continue
+        ctx.violation("failing-input", "the in-memory output stream (files.MemoryStream / Writer.WriteAt) differs from its model "
+                      "(proved to refine the abstract write and never to panic on non-negative offsets)",
+                      dict(case_id=cid, history=parts[1][:2000], implementation=(il or "")[:300], model=(ml or "")[:300],
+                           how="vharness one mshist raw:<history>"),
+                      key=S.case_key(parts[1].encode(), b"mshist"))
+    n += ms_n
+    agree += ms_agree
     ctx.coverage.update(evaluations=n, distinct_nontrivial=nontrivial,
                         rule="generated replace/find programs x {NEW, NOTHING, OVERWRITE} on a real scratch directory "
                              "(searched file, bystander file, optional stale .vored); non-trivial = the directory changed",
-                        samples=samples, counters=dict(cases=n, agree=agree, by_mode=modes), generator=stats,
+                        samples=samples, counters=dict(cases=n, agree=agree, by_mode=modes, memory_stream_histories=ms_n,
+                                                       memory_stream_agree=ms_agree, memory_stream_both_panic=ms_panic,
+                                                       memory_stream_capacity_drift=ms_cap_drift), generator=stats,
                         traces_validated_against_impl=agree)
 
 
 PROPS = {"C06": dict(
     lean_modules=["Vore.Props.C06"],
     theorems=["Vore.C06_splice", "Vore.C06_mode_nothing", "Vore.C06_mode_new", "Vore.C06_mode_overwrite", "Vore.C06_find_pure",
-              "Vore.C06_run_frame", "Vore.C06_run_single"],
+              "Vore.C06_run_frame", "Vore.C06_run_single", "Vore.C06_memory_stream", "Vore.C06_memory_stream_splice",
+              "Vore.C06_memory_stream_total"],
     run=run,
     assumptions=["POSIX semantics of O_TRUNC and seek+write; os.ReadFile; the real file system is exercised, not proved"],
     manifest=dict(
@@ -71,9 +99,15 @@ PROPS = {"C06": dict(
              "twice (runFilesL, commands outermost as in RunFiles): NOTHING changes no file, NEW changes nothing except "
              "<f>.vored for listed f (a searched file stays byte-identical unless it is itself the .vored of another listed "
              "file), OVERWRITE changes nothing except the listed files (C06_run_frame, by induction over commands and "
-             "files). Correspondence: the real RunFiles is run in a scratch directory for every "
+             "files). The in-memory destination of Run / mode NOTHING is modelled as written (files/memorystream.go: backing "
+             "array, length, capacity, position; both slice panics explicit): for every text and match list the WriteAt "
+             "calls of searchReplace never panic and leave exactly the written text = the splice; no history of "
+             "Write/Seek/WriteAt(off >= 0) panics (C06_memory_stream, _splice, _total; invariant: len <= cap and the array "
+             "beyond len is zero). Correspondence: the real RunFiles is run in a scratch directory for every "
              "mode (replacements longer/shorter/empty, zero matches, stale .vored, bystander file, several commands) and "
-             "the directory snapshot and matches are compared with the model's.",
+             "the directory snapshot and matches are compared with the model's; 600 (thorough: 20 000) random histories of "
+             "Write/Seek/WriteAt on the real MemoryStream vs the model (contents and position; sizes around 4096/8192, gaps, "
+             "overwrites, negative offsets).",
         note="Partial in the sense of DESIGN §6: the file system is abstract in the theorem; O_TRUNC/seek/write are "
              "assumptions exercised by the correspondence. Trusted: Lean kernel; model fidelity by correspondence.",
         technique="Lean 4 loop-invariant proof of the splice + case analysis over modes + differential run on a real scratch directory"),
